@@ -293,19 +293,23 @@ def gen_history(rng, pools, tier):
                 slots[nslot] = {"languages": [L2], "settings": copy.deepcopy(var)}
                 ops.append({"op": "new_parser", "slot": nslot, "kw": slots[nslot], "clock_us": clock()})
             ops.append({"op": "get_date_data", "slot": 1, "ctor": slots[1], "s": refdep, "clock_us": clock()})
-        elif tmpl < 0.135:
+        elif tmpl < 0.15:
             # T5 'tl' is the only language without a date order of its own: whatever order applies to it must
             # come from the call's own settings, never from whoever parsed Tagalog first in this process
-            num = "%02d/%02d/%d" % (rng.randrange(1, 13), rng.randrange(1, 13), rng.randrange(2000, 2030))
+            a_, b_ = rng.sample(range(1, 13), 2)
+            num = "%02d/%02d/%d" % (a_, b_, rng.randrange(2000, 2030))
             o1, o2 = rng.sample(ORDERS, 2)
-            seq = [{"DATE_ORDER": o1}, None, {"DATE_ORDER": o2}, {"PREFER_LOCALE_DATE_ORDER": False}]
-            rng.shuffle(seq)
+            if rng.random() < 0.7:
+                seq = [{"DATE_ORDER": rng.choice(["DMY", "DYM", "YDM"])}, None] + rng.sample([{"DATE_ORDER": o2}, {"PREFER_LOCALE_DATE_ORDER": False}, None], 2)
+            else:
+                seq = [{"DATE_ORDER": o1}, None, {"DATE_ORDER": o2}, {"PREFER_LOCALE_DATE_ORDER": False}]
+                rng.shuffle(seq)
             for st_ in seq[: rng.choice([2, 3, 4])]:
                 kw_ = {"languages": ["tl"]}
                 if st_:
                     kw_["settings"] = st_
                 ops.append({"op": "parse", "s": num, "kw": kw_, "clock_us": clock()})
-        elif tmpl < 0.15:
+        elif tmpl < 0.17:
             # T4 a live instance on which a call raises *inside* a parser (not a ValueError), then an
             # order-sensitive call on the same instance; 'tl' first in the given order has no date order of its own
             Lx = rng.choice([l for l in langs if l not in ("en", "tl")] or ["fr"])
